@@ -47,16 +47,19 @@ theorem breakString_indices_in_range (maxWidth : Nat) (trimEnd : Bool) (lineEnd 
 example : breakString 20 false [] "Placerat felis. Mauris porta ante sagittis purus.".toList
     = breakAt false "Placerat felis. Mauris porta ante sagittis purus.".toList 15 := by decide
 
-/-- **Bounds.**  `EndOfInput` carries the whole input; the length a `LineEnd` / `EndWithLineFeed` reports
-is between 1 and the length of the input, so `graphemes[cur_start..]` of the next turn of `rewrite_string`
-is in range. -/
+/-- **Bounds.**  `EndOfInput` carries the whole input (under `trim_end`, when only blanks follow the break
+point: the input without them); the length a `LineEnd` / `EndWithLineFeed` reports is between 1 and the
+length of the input, so `graphemes[cur_start..]` of the next turn of `rewrite_string` is in range. -/
 theorem breakString_bounds (maxWidth : Nat) (trimEnd : Bool) (lineEnd input : List Char) :
     match breakString maxWidth trimEnd lineEnd input with
-    | .endOfInput line => line = input
+    | .endOfInput line => ∃ m, line = input.take m ∧ (input.drop m).all blank = true
     | .lineEnd _ len => 1 ≤ len ∧ len ≤ input.length
     | .endWithLineFeed _ len => 1 ≤ len ∧ len ≤ input.length := by
   have h := (breakString_step maxWidth trimEnd lineEnd input).len_bounds
   cases hb : breakString maxWidth trimEnd lineEnd input <;> simpa [hb, lenOk] using h
+
+/-- non-vacuity of the trimmed `EndOfInput`: the blanks at the end are dropped, no next line is opened -/
+example : breakString 12 true [] "aaaaaaaaaaaa    ".toList = .endOfInput "aaaaaaaaaaaa".toList := by decide
 
 /-- **Progress.**  Every step that does not end the rewriting consumes at least one grapheme. -/
 theorem breakString_progress (maxWidth : Nat) (trimEnd : Bool) (lineEnd input line : List Char) (len : Nat)
